@@ -8,7 +8,8 @@ for m in $NAMES; do
   ids=$(/venv/bin/python -c "import json;print(' '.join(json.load(open('seeded/$m/meta.json'))['checks_run']))")
   W=/tmp/reseedwt.$$
   git -C /repo worktree add -q --detach $W HEAD || exit 2
-  if ! git -C $W apply $V/seeded/$m/patch.diff 2>/dev/null && ! git -C $W apply --3way $V/seeded/$m/patch.diff 2>/dev/null; then
+  PF=$V/seeded/$m/patch.diff; [ -f $V/seeded/$m/patch_head.diff ] && PF=$V/seeded/$m/patch_head.diff   # re-based copy where a later fix touched the same lines
+  if ! git -C $W apply $PF 2>/dev/null && ! git -C $W apply --3way $PF 2>/dev/null; then
     echo "$m NOAPPLY"; git -C /repo worktree remove --force $W; continue
   fi
   res=MISSED
